@@ -334,7 +334,8 @@ func protectedDiff(before, after map[string][]byte, freshRound string) []string 
 
 func checkC09(c *Ctx) {
 	refWorldLargeDocument = true
-	c.Rule = "reference ceremonies (honest key generation + two signing batches; a key generation cancelled by an error report; a round reinitialised from a dump followed by signing) are run one message per poll with a snapshot after every step, so that every (genuine message, consuming node) pair is met in the exact state in which the node consumes it. Each pair is attacked with ~30 forgeries (payload bit flips per byte class, signature flips/truncation/empty/zero, sender renamed to each other participant or a stranger, re-signed with each other participant's key or a fresh key); every forgery is also presented wrapped inside an (unauthenticated) reinit_dkg message for a fresh round id. Oracle: ProcessMessage returns an error and the node's durable state (offset excluded) is byte-identical; for the wrapped family: every existing round, existing operation and signature store is unchanged. Plus rounds in which the key registered for a participant is unusable (10/16/31/33/64-byte key in the opening proposal, key left out of a reinit message): every message naming that participant, under any signature, must be refused without a trace. Stranger's opening proposals under identifiers that fold onto the existing round's must leave it unchanged. A stranger's own round (the participants' names registered with her key): signature broadcasts posted there that name a real round / participant must leave the real round untouched. distinct = distinct (world, event type, consuming-state name, forgery kind)"
+	c09FlagWiring(c)
+	c.Rule = "reference ceremonies (honest key generation + two signing batches; a key generation cancelled by an error report; a round reinitialised from a dump followed by signing) are run one message per poll with a snapshot after every step, so that every (genuine message, consuming node) pair is met in the exact state in which the node consumes it. Each pair is attacked with ~30 forgeries (payload bit flips per byte class, signature flips/truncation/empty/zero, sender renamed to each other participant or a stranger, re-signed with each other participant's key or a fresh key); every forgery is also presented wrapped inside an (unauthenticated) reinit_dkg message for a fresh round id. Oracle: ProcessMessage returns an error and the node's durable state (offset excluded) is byte-identical; for the wrapped family: every existing round, existing operation and signature store is unchanged. Plus rounds in which the key registered for a participant is unusable (10/16/31/33/64-byte key in the opening proposal, key left out of a reinit message): every message naming that participant, under any signature, must be refused without a trace. Stranger's opening proposals under identifiers that fold onto the existing round's must leave it unchanged. A stranger's own round (the participants' names registered with her key): signature broadcasts posted there that name a real round / participant must leave the real round untouched. The daemon's command lines (each flag alone, the documented combinations): message verification may be off only when --skip_comm_keys_verification was given (observer compiled into cmd/dc4bc_d through go test -overlay). distinct = distinct (world, event type, consuming-state name, forgery kind)"
 	c.Assumptions = []string{"MemState substituted for LevelDB", "the opening proposal and the reinitialisation message themselves are exempt by the property"}
 	kinds := []struct {
 		kind string
